@@ -37,8 +37,9 @@ def units(tier):
             n = 4 if three else 32   # 32 shards keep a bound-2 shard far below UNIT_TIMEOUT on a loaded machine
             for i in range(n):
                 out.append(("sched", hid, bound, i, n))
-    if tier == "thorough":
-        out.append(("sched", "lazy-same-op-twice", 3, 0, 1))
+    # bound 3 is out of reach: `lazy-same-op-twice` has 316 schedules at bound 1, 35 938 at bound 2 and (estimated from the
+    # growth) about 3.8 million at bound 3, 50 000 CPU-seconds. A unit that stops at MAX_EXECS is a sample, not a bound
+    # completed, so no bound-3 unit is registered.
     return out
 
 
